@@ -137,15 +137,18 @@ def blocks(tier):
     out = [{"space": "range", "tier": tier, "combos": c} for c in chunk(combos, 48)]
     axes = [(a, b, n) for a in STARTS[tier] for b in STEPS[tier] for n in INDEX_NS[tier]]
     out += [{"space": "index", "axes": c} for c in chunk(axes, 8)]
+    systems = []
     for lat in write_lats(tier):
         for shape in write_shapes(tier):
             nops = len(write_ops(shape, write_vals(tier)))
             depth = write_depth(tier, shape)
-            cost = nops ** depth
-            pieces = max(1, min(nops, round(cost / 6000)))
-            for c in chunk(list(range(nops)), pieces):
-                out.append({"space": "write", "tier": tier, "shape": list(shape), "lat": lat, "depth": depth,
-                            "vals": write_vals(tier), "first": c})
+            systems.append((lat, shape, nops, depth, nops ** depth))
+    target = max(6000, sum(s[4] for s in systems) // 80)  # about 80-110 write blocks of similar cost
+    for lat, shape, nops, depth, cost in systems:
+        pieces = max(1, min(nops, round(cost / target)))
+        for c in chunk(list(range(nops)), pieces):
+            out.append({"space": "write", "tier": tier, "shape": list(shape), "lat": lat, "depth": depth,
+                        "vals": write_vals(tier), "first": c})
     return out
 
 
@@ -219,8 +222,13 @@ def run_range(case):
 
     cls = {"fn": form}
     if n == 0:
-        # empty range: stop == start. Not judged (the property quantifies over a number of steps >= 1).
-        out.vac("count_exact")
+        # empty range: stop == start, (stop - start)/step = 0 is a whole number, so exactly 0 coordinates are expected
+        # (for the size= form the step is undefined: not judged)
+        if form == "range_dim_size" or k:
+            out.vac("count_exact")
+        else:
+            got = len(res[1].data) if res[0] == "ok" else list(res)
+            out.expect("count_exact", got == 0, got, 0, dict(cls, quot="empty"))
         out.klass = "range:empty:" + (res[0] if res[0] != "ok" else "len%d" % len(res[1].data))
         return out
 
@@ -240,14 +248,21 @@ def run_range(case):
         count_oracle, ccls, kind = "count_nonwhole", dict(cls, frac="le_half" if frac <= F(1, 2) else "gt_half"), "frac_%s" % frac
     detail = {"stop": stop, "exact_quotient": float(q)}
     if res[0] != "ok":
-        out.fail(count_oracle, list(res), n, dict(ccls, outcome=res[0]), detail)
+        out.fail("count_exact" if k == 0 else "no_crash", list(res), n, dict(ccls, outcome=res[0]), detail)
         out.klass = "range:%s:%s" % (kind, res[0])
         return out
     v = res[1]
     d = np.asarray(v.data)
     got = int(d.shape[0]) if d.ndim == 1 else -1
     tail = [float(x) for x in d[-2:]] if d.ndim == 1 else None
-    out.expect(count_oracle, got == n, got, n, ccls, dict(detail, last_coords=tail))
+    if count_oracle == "count_nonwhole":
+        # The statement fixes the number of coordinates only when (stop - start)/step is a whole number.  In the
+        # non-whole case the implementation drops a last lattice point lying within half a step of stop (a guard that
+        # load_recording relies on for durations that are not exact multiples of the sample period); this is recorded
+        # in the outcome histogram, not judged.
+        out.vac("count_nonwhole")
+    else:
+        out.expect(count_oracle, got == n, got, n, ccls, dict(detail, last_coords=tail))
     # coordinates on the lattice (whatever their number)
     if d.ndim == 1 and am.tolerance_is_meaningful(start, step_real, max(n, got)):
         bad, worst = am.first_off_lattice(d.tolist(), start, step_real)
@@ -334,7 +349,7 @@ def run_index(case):
     out.transitions = calls
     out.validated = calls
     out.nontrivial = n >= 2
-    out.klass = "index:" + ("agree" if not bad else "differ")
+    out.klass = "index:%s:%s" % ("n1" if n == 1 else "n>=2", "agree" if not bad else "differ")
     return out
 
 
@@ -397,12 +412,14 @@ class WriteSystem:
         self.axes = [axis_coords(lat, a, n) for a, n in enumerate(self.shape)]
         self.size = int(np.prod(self.shape))
 
-    def initial(self):
-        flat = [100.0 + i for i in range(self.size)]
-        arr = xr.DataArray(
+    def build(self, flat):
+        """A fresh DataArray holding the row-major list ``flat`` on the model coordinates."""
+        return xr.DataArray(
             np.array(flat, dtype=np.float64).reshape(self.shape), dims=list(DIMS[:self.nd]),
             coords={DIMS[a]: xr.Variable(DIMS[a], np.array(c), attrs={"step": s}) for a, (c, s) in enumerate(self.axes)})
-        return flat, arr
+
+    def initial(self):
+        return [100.0 + i for i in range(self.size)]
 
     def position(self, a, i, pos):
         coords, step = self.axes[a]
@@ -412,8 +429,13 @@ class WriteSystem:
             return coords[i] + step / 2
         return coords[0] - step / 2
 
-    def step(self, flat, arr, op):
-        """Execute one write on a deep copy of arr; returns (record, next_flat, next_arr)."""
+    def step(self, flat, holder, op):
+        """Execute one write on the array of the state (holder[0], built on demand from flat).
+
+        set_value_at_pos works in place, so the contents are put back afterwards instead of deep-copying the
+        DataArray for every transition; whenever anything looks odd the array is dropped and rebuilt.
+        Returns (record, resulting row-major list or None).
+        """
         query, fixed, outside = {}, {}, False
         for a, i in op["addr"]:
             p = self.position(a, i, op["pos"])
@@ -425,7 +447,9 @@ class WriteSystem:
                 fixed[a] = m
         mval, ival = op_value(self.shape, op)
         expected = list(flat) if outside else am.write_model(flat, self.shape, fixed, mval)
-        work = arr.copy(deep=True)
+        if holder[0] is None:
+            holder[0] = self.build(flat)
+        work = holder[0]
         try:
             res = set_value_at_pos(work, ival, **query)
             outcome = ["ok", None]
@@ -434,18 +458,21 @@ class WriteSystem:
         except Exception as e:  # noqa
             res, outcome = None, ["crash", type(e).__name__]
         problems = []
-        target = res if outcome[0] == "ok" else work
+        target = res if outcome[0] == "ok" else work  # judged: the returned array; after a failed call: the input
         got = None
         if not isinstance(target, xr.DataArray):
             problems.append("result is %s" % type(target).__name__)
+        elif tuple(target.shape) != self.shape or tuple(target.dims) != DIMS[:self.nd]:
+            problems.append("shape/dims changed to %s %s" % (target.shape, target.dims))
         else:
-            if tuple(target.shape) != self.shape or tuple(target.dims) != DIMS[:self.nd]:
-                problems.append("shape/dims changed to %s %s" % (target.shape, target.dims))
-            else:
-                got = np.asarray(target.data, dtype=np.float64).ravel().tolist()
-                for a, (c, _) in enumerate(self.axes):
-                    if target.coords[DIMS[a]].data.tolist() != list(c):
-                        problems.append("coordinates of %s changed" % DIMS[a])
+            got = np.asarray(target.data, dtype=np.float64).ravel().tolist()
+            for a, (c, _) in enumerate(self.axes):
+                try:
+                    same = target.get_index(DIMS[a]).tolist() == list(c)
+                except Exception:  # noqa
+                    same = False
+                if not same:
+                    problems.append("coordinates of %s changed" % DIMS[a])
         if outside:
             if outcome[0] != "raise":
                 problems.append("write outside the range was not rejected")
@@ -454,12 +481,16 @@ class WriteSystem:
         if got is not None and got != expected:
             diff = [i for i, (g, e) in enumerate(zip(got, expected)) if g != e]
             problems.append("elements differ at flat indices %s" % diff[:8])
+        # put the state's array back
+        if problems or tuple(work.shape) != self.shape:
+            holder[0] = None
+        else:
+            work.data[...] = np.array(flat, dtype=np.float64).reshape(self.shape)
         record = {
             "outside": outside, "outcome": outcome, "got": got, "expected": expected, "problems": problems,
             "changes": sum(1 for x, y in zip(flat, expected) if x != y), "query": query,
         }
-        nxt_arr = target if (got is not None and isinstance(target, xr.DataArray)) else None
-        return record, got, nxt_arr
+        return record, got
 
 
 def judge_write(out, ws, op, record, depth_before):
@@ -482,7 +513,7 @@ def explore_writes(block, rec):
     OPS = write_ops(ws.shape, block["vals"])
     first = [OPS[k] for k in block["first"]]
     depth = block["depth"]
-    flat0, arr0 = ws.initial()
+    flat0 = ws.initial()
     d0 = {"shape": list(ws.shape), "lat": ws.lat}
     side = {}
 
@@ -490,13 +521,13 @@ def explore_writes(block, rec):
         return first if st[0] == 0 else OPS
 
     def apply_op(st, op):
-        d, flat, arr = st
-        record, got, nxt_arr = ws.step(list(flat), arr, op)
+        d, flat, holder = st
+        record, got = ws.step(list(flat), holder, op)
         side["rec"] = record
         side["depth"] = d
-        if record["outcome"][0] != "ok" or got is None or nxt_arr is None:
+        if record["outcome"][0] != "ok" or got is None:
             return None
-        return (d + 1, tuple(got), nxt_arr)
+        return (d + 1, tuple(got), [None])
 
     def canon(st):
         return st[1]
@@ -511,7 +542,7 @@ def explore_writes(block, rec):
                                          "agree" if not record["problems"] else "differ")
         rec.add(out)
 
-    s = bfs_mod.bfs((d0, (0, tuple(flat0), arr0)), ops, apply_op, canon, depth, on_transition=on_transition)
+    s = bfs_mod.bfs((d0, (0, tuple(flat0), [None])), ops, apply_op, canon, depth, on_transition=on_transition)
     rec.count("write_bfs_states", s.states)
     rec.count("write_bfs_merged", s.merged)
 
@@ -519,19 +550,19 @@ def explore_writes(block, rec):
 def run_write_history(case):
     """Replay of one write history: every step is executed and judged."""
     ws = WriteSystem(case["shape"], case["lat"])
-    flat, arr = ws.initial()
+    flat = ws.initial()
     out = Out(case)
     nt = False
     n = 0
     last = "agree"
     for d, op in enumerate(case["ops"]):
-        record, got, nxt_arr = ws.step(list(flat), arr, op)
+        record, got = ws.step(list(flat), [None], op)
         n += 1
         nt = judge_write(out, ws, op, record, d)
         last = "%s:%s" % ("reject" if record["outside"] else "write", "agree" if not record["problems"] else "differ")
-        if record["outcome"][0] != "ok" or got is None or nxt_arr is None:
+        if record["outcome"][0] != "ok" or got is None:
             break
-        flat, arr = got, nxt_arr
+        flat = got
     out.key = ["write", list(ws.shape), ws.lat, list(flat)]
     out.transitions = n
     out.validated = n
